@@ -977,7 +977,10 @@ func rulesC03(r *Run) {
 	// a block recovery has just found Failed stops the plan like any other failed block (round-3 seed C03-6)
 	ruleRepairThenClassify(r, "R4", smKey("fixPlan"), smKey("fixBlock"), "workflow.Block")
 	ruleExamineBypasses(r, "R4")
-	r.Expect("R4", 6)
+	// recovery records a sequence with a failed action as Failed (mutation sweep)
+	ruleFixSeqVerdicts(r, "R4")
+	ruleExecSeqFailedReturnsError(r, "R4")
+	r.Expect("R4", 9)
 
 	// ---- R5: "… or one of its checks failed": a failing block-level check reaches the block's verdict
 	// (the same constructs C07 decides for the continuous checks, and the gate/ post-check routing)
